@@ -40,7 +40,9 @@ pub fn perm_operand(rng: &mut Rng) -> String {
             }
             parts.join(",")
         }
-        _ => (*rng.pick(&["0", "7777", "u=g", "g=u", "o=u", "a+r,g-r", "+x", "=", "u+s,o+t", "000"])).to_string(),
+        _ => (*rng.pick(&["0", "7777", "u=g", "g=u", "o=u", "a+r,g-r", "+x", "=", "u+s,o+t", "000",
+            // later clauses that depend on or undo earlier ones
+            "a=rwx,o-w", "u=rwx,u-w", "u=rw,g=u", "ug=rw,o=r,g-w", "a=r,u+w", "u=rwx,u=r", "go=,u=rwx", "a+rwx,go-wx", "u+x,a-x", "ugo=rx,u+w,o="])).to_string(),
     };
     format!("{prefix}{body}")
 }
